@@ -290,6 +290,28 @@ func (w *worker) check(a, b []float32, layout string, aoff, boff int, p pattern)
 	}
 }
 
+// checkSpare: a and b have capacity beyond their length; every kernel must return bit for bit what it returns for the
+// same elements in exact-capacity slices (a heap copy, 4-byte aligned like any Go slice).
+func (w *worker) checkSpare(a, b []float32, n, spare int, p pattern) {
+	ea, eb := append([]float32(nil), a...), append([]float32(nil), b...)
+	ea, eb = ea[:n:n], eb[:n:n]
+	for _, m := range metrics() {
+		for _, in := range []string{"native", "avx"} { // SSE needs 16-byte alignment (a known finding): heap slices do not guarantee it
+			impl := w.impls[in]
+			want, f1 := call(func() float32 { return m.call(impl, ea, eb) })
+			got, f2 := call(func() float32 { return m.call(impl, a, b) })
+			w.calls += 2
+			if f1 != nil || f2 != nil {
+				continue // faults are the layouts' business
+			}
+			if math.Float32bits(want) != math.Float32bits(got) && !(want != want && got != got) {
+				w.add(fmt.Sprintf("reads-beyond-len:%s:%s", in, m.name), fmt.Sprintf("%s %s on slices of length %d with %d spare elements (NaN) behind them = %v, on exact-capacity copies = %v (pattern %s)", in, m.name, n, spare, got, want, p.name),
+					map[string]interface{}{"impl": in, "metric": m.name, "len": n, "spare": spare, "pattern": p.name})
+			}
+		}
+	}
+}
+
 func lengths(thorough bool) []int {
 	var ls []int
 	if thorough {
@@ -348,6 +370,20 @@ func main() {
 					p.fill(a, b)
 					w.check(a, b, "ends-at-guard", -1, -1, p)
 					myCases++
+					// L3: the same vectors as slices with spare capacity (rows of a matrix, append-grown vectors): the
+					// elements behind len() are NaN canaries and must not be looked at - only ordinary values, so that
+					// a result can be compared with the exact-capacity call
+					if !p.extreme && n <= 300 {
+						for _, spare := range []int{1, 8, 33} {
+							fa, fb := make([]float32, n+spare), make([]float32, n+spare)
+							p.fill(fa[:n], fb[:n])
+							for i := n; i < n+spare; i++ {
+								fa[i], fb[i] = float32(math.NaN()), float32(math.NaN())
+							}
+							w.checkSpare(fa[:n], fb[:n], n, spare, p)
+							myCases++
+						}
+					}
 					// L2: every alignment of a x 4 alignments of b, right after the leading guard
 					for _, ao := range aoffs {
 						for _, bo := range boffs {
